@@ -335,7 +335,25 @@ impl Walrus {
                 let mut probe = [0u8; 8];
                 mmap.read(block_offset as usize, &mut probe);
                 if probe.iter().all(|&b| b == 0) {
-                    break;
+                    // ... unless a later block of this file holds data: then this one was handed
+                    // out but never written (e.g. the topic's first append was rejected) and the
+                    // blocks behind it still have to be recovered, under their original ids
+                    let mut later_data = false;
+                    let mut off = block_offset + DEFAULT_BLOCK_SIZE;
+                    while off + DEFAULT_BLOCK_SIZE <= MAX_FILE_SIZE {
+                        mmap.read(off as usize, &mut probe);
+                        if probe.iter().any(|&b| b != 0) {
+                            later_data = true;
+                            break;
+                        }
+                        off += DEFAULT_BLOCK_SIZE;
+                    }
+                    if !later_data {
+                        break;
+                    }
+                    block_offset += DEFAULT_BLOCK_SIZE;
+                    next_block_id += 1;
+                    continue;
                 }
 
                 let mut used: u64 = 0;
